@@ -30,12 +30,14 @@ type Breach struct {
 	Entry Entry
 }
 
+// String renders the breach without ledger positions or connection numbers (those depend on
+// the order in which the executor happened to visit its connection maps).
 func (b Breach) String() string {
-	return fmt.Sprintf("%s: %s", b.Kind, Describe([]Entry{b.Entry})[0])
+	return fmt.Sprintf("%s: %s by session %s on a connection of %s", b.Kind, b.Entry.Op, b.Entry.Actor, b.Entry.Pool)
 }
 
 // Feed consumes the ledger entries not seen yet. Entries are processed per connection (the
-// only order that is deterministic), connections in ascending id order.
+// only order that is deterministic), connections ordered by pool name, then id.
 func (l *Leases) Feed(ledger []Entry) []Breach {
 	fresh := ledger[l.next:]
 	l.next = len(ledger)
@@ -50,7 +52,13 @@ func (l *Leases) Feed(ledger []Entry) []Breach {
 		}
 		by[e.Conn] = append(by[e.Conn], e)
 	}
-	sort.Ints(ids)
+	sort.Slice(ids, func(i, j int) bool {
+		a, b := by[ids[i]][0].Pool, by[ids[j]][0].Pool
+		if a != b {
+			return a < b
+		}
+		return ids[i] < ids[j]
+	})
 	var out []Breach
 	for _, id := range ids {
 		for _, e := range by[id] {
